@@ -569,9 +569,40 @@ EXTRAS = [
 ]
 
 
+# native re-entry sites of the builtins: each expression calls back into JS (t throws, n returns); it is run
+# uncaught at script level, uncaught in a function called by the host, and caught in a function called by the host
+CALLBACK_EXPRS = [
+    "[1, 2].forEach(F)", "[1, 2].map(F)", "[1, 2].filter(F)", "[1, 2].reduce(F)", "[2, 1].sort(F)", "[1].find(F)",
+    "[1].some(F)", "[1].every(F)", "[1].flatMap(F)", "Array.from([1], F)", "Array.from({ length: 1 }, F)",
+    "'a'.replace('a', F)", "'a'.replace(/a/, F)", "JSON.stringify({ toJSON: F })", "JSON.stringify({ a: 1 }, F)",
+    "JSON.parse('[1]', F)", "new Promise(F)", "Reflect.apply(F, null, [])", "Reflect.construct(F, [])",
+    "F.call(null)", "F.apply(null, [])", "F.bind(null)()", "new Map([[1, 2]]).forEach(F)", "new Set([1]).forEach(F)",
+    "Object.defineProperty({}, 'x', { get: F }).x", "({ set x(v) { F() } }).x = 1", "F`x`", "String({ toString: F })",
+    "1 + { valueOf: F }", "[...{ [Symbol.iterator]: F }]", "new Proxy({}, { get: F }).x", "new Proxy(function(){}, { apply: F })()",
+    "Object.keys(new Proxy({}, { ownKeys: F }))", "1 instanceof { [Symbol.hasInstance]: F }",
+    "new (class extends (function(){ F() }) {})()", "Object.assign({}, { get a() { return F() } })",
+    "Array.prototype.concat.call({ get [Symbol.isConcatSpreadable]() { return F() } })", "new F()", "eval('F()')",
+    "(function*(){ F(); yield 1 })().next()", "[1].map(function(){ return [2].map(F) })",
+]
+
+
+def callback_extras():
+    out = []
+    for fname in ("t", "n"):
+        setup = "function t(){ throw 1 } function n(){ return [] } "
+        steps = [("eval", None)]
+        for i, e in enumerate(CALLBACK_EXPRS):
+            e = e.replace("F", fname)
+            setup += f"function u{i}(){{ return {e} }} function c{i}(){{ try {{ return {e} }} catch (x) {{ return 'c' }} }} "
+            steps += [("eval", e, "script: " + e), (f"call:u{i}", [], "function: " + e), (f"call:c{i}", [], "caught: " + e)]
+        steps[0] = ("eval", setup + "0")
+        out.append(("callbacks-" + ("throwing" if fname == "t" else "returning"), steps))
+    return out
+
+
 def extra_scenario(sid, name, steps, cfg):
     out = []
-    for kind, arg in steps:
+    for kind, arg in [st[:2] for st in steps]:
         if kind == "eval":
             out.append({"kind": "eval", "src": arg})
         elif kind == "module":
@@ -594,21 +625,30 @@ def run(tier, replay=None):
     thorough = tier == "thorough"
 
     # ---- model gate: free exploration of the mechanism model
-    g = vlib.run_tlc(os.path.join(SPECDIR, "MCHostVm.tla"), "MCHostVm_thorough.cfg" if thorough else "MCHostVm_quick.cfg",
-                     workers=6, timeout=1500)
-    vlib.tlc_must_pass(g, "HostVm gate")
+    if thorough:
+        # one run with -coverage 1: invariants + "every action of the MC spec was taken"
+        import re
+        t0 = __import__("time").time()
+        raw = tlc_coverage("MCHostVm.tla", "MCHostVm_thorough.cfg")
+        m = re.search(r"^(\d+) states generated, (\d+) distinct states found, 0 states left", raw, re.M)
+        if "Model checking completed. No error has been found." not in raw or not m:
+            vlib.log(raw[-3000:])
+            raise vlib.ToolError("model gate failed for HostVm (thorough)")
+        g = {"states": int(m.group(1)), "distinct": int(m.group(2)), "wall": __import__("time").time() - t0}
+        check_coverage(raw, ck, "gate")
+        check_coverage(tlc_coverage("MCHostVmHist.tla", "MCHostVmHist_single.cfg"), ck, "history")
+    else:
+        g = vlib.run_tlc(os.path.join(SPECDIR, "MCHostVm.tla"), "MCHostVm_quick.cfg", workers=6, timeout=1500)
+        vlib.tlc_must_pass(g, "HostVm gate")
     vlib.log(f"[C07] gate: {g['distinct']} states, {g['states']} transitions, {g['wall']:.0f}s")
     ck.cov["gate_states"] = g["distinct"]
     ck.cov["gate_transitions"] = g["states"]
-    if thorough:
-        check_coverage(tlc_coverage("MCHostVm.tla", "MCHostVm_quick.cfg"), ck, "gate")
-        check_coverage(tlc_coverage("MCHostVmHist.tla", "MCHostVmHist_single.cfg"), ck, "history")
 
     # ---- mode A: histories enumerated by TLC
     # (config, history length, size of its alphabet in MCHostVmHist.tla)
-    cfgs = [("MCHostVmHist_single.cfg", 1, ALPHA_FULL), ("MCHostVmHist_tiny3.cfg", 3, 8)] if not thorough else \
+    cfgs = [("MCHostVmHist_single.cfg", 1, ALPHA_FULL), ("MCHostVmHist_tiny3.cfg", 3, 7)] if not thorough else \
            [("MCHostVmHist_single.cfg", 1, ALPHA_FULL), ("MCHostVmHist_quick.cfg", 3, 23), ("MCHostVmHist_mid.cfg", 2, 68),
-            ("MCHostVmHist_tiny.cfg", 5, 8)]
+            ("MCHostVmHist_tiny.cfg", 5, 7)]
     hists, seen = [], set()
     for c, maxlen, alpha in cfgs:
         hs, r = enumerate_histories(c, ck, maxlen=maxlen, alpha=alpha)
@@ -674,10 +714,11 @@ def run(tier, replay=None):
     vlib.log(f"[C07] trace validation: {ck.cov.get('trace_events', 0)} events, {ck.cov.get('traces_rejected', 0)} executions rejected")
 
     # ---- directed scenarios outside the alphabet (depths, nesting, completion alphabet)
-    scen = [extra_scenario(f"x{n}", name, steps, CFG_A) for n, (name, steps) in enumerate(EXTRAS)]
+    extras = EXTRAS + callback_extras()
+    scen = [extra_scenario(f"x{n}", name, steps, CFG_A) for n, (name, steps) in enumerate(extras)]
     res = judge.run(scen)
-    for n, (name, steps) in enumerate(EXTRAS):
-        judge_extra(judge, f"x{n}", name, scen[n], res.get(f"x{n}"))
+    for n, (name, steps) in enumerate(extras):
+        judge_extra(judge, f"x{n}", name, scen[n], res.get(f"x{n}"), [st[2] if len(st) > 2 else None for st in steps])
     judge.mode_b()
 
     # ---- long histories: LONG_N failing entries of one class, then a program under a small stack limit
@@ -707,7 +748,10 @@ def run(tier, replay=None):
                        {"failing_entry": sym, "times": LONG_N, "cfg": CFG_LONG, "final_program": FINAL_SYM,
                         "on_reused_context": got_final, "on_fresh_context": want_final, "depths": r["steps"][-1]["d"]})
 
-    ck.cov.update(samples_note="see coverage.samples", exhaustive=True,
+    ck.cov["history_states"] = ck.cov.get("states", 0)
+    ck.cov["states"] = ck.cov.get("states", 0) + ck.cov.get("gate_states", 0) + ck.cov.get("trace_states", 0)
+    ck.cov["transitions"] = ck.cov.get("transitions", 0) + ck.cov.get("gate_transitions", 0) + ck.cov.get("trace_events", 0)
+    ck.cov.update(exhaustive=True,
                   evaluations=ck.cov.get("entries_checked", 0) + ck.cov.get("nested_entries_checked", 0),
                   distinct_nontrivial=ck.cov.get("abrupt_entries", 0),
                   rule="one replay per host-entry history enumerated by TLC (every single entry plan of the full alphabet; all histories "
@@ -740,7 +784,7 @@ def build_long(sid, sym, cfg):
     return {"id": sid, "cfg": cfg, "steps": [{"kind": "eval", "src": " ".join(setups) + " 0"}] + steps}, None
 
 
-def judge_extra(judge, sid, name, scen, res):
+def judge_extra(judge, sid, name, scen, res, labels=None):
     ck = judge.ck
     sym = plan("extra:" + name, "mixed")
     if res is None:
@@ -755,7 +799,7 @@ def judge_extra(judge, sid, name, scen, res):
     for i, st in enumerate(res["steps"]):
         ck.add("extra_entries_checked")
         xid = f"{sid}:{i}"
-        esym = plan("extra:" + name, f"step{i}")
+        esym = plan("extra:" + name, labels[i] if labels and labels[i] else f"step{i}")
         detail = {"scenario": scen, "step": i, "expected_depths": before, "actual_depths": st["d"], "completion": st["c"]}
         # a step whose function lookup failed records no events
         if gi < len(groups) and groups[gi][0]["k"] == expected_kind(real[i]):
